@@ -313,3 +313,13 @@ T("c07-twin-maze-not-lt", "C07", (R + "maze/env.py", "Maze._compute_action_mask"
 T("c07-twin-maze-le-minus1", "C07", (R + "maze/env.py", "Maze._compute_action_mask", "expr", "col < self.num_cols", "col <= self.num_cols - 1"))
 T("c04-twin-snake-demorgan", "C04", (R + "snake/env.py", "Snake._get_action_mask", "expr", "~outside_board & ~head_bumps_body", "~(outside_board | head_bumps_body)"))
 T("c07-twin-snake-logical", "C07", (R + "snake/env.py", "Snake._get_action_mask", "expr", "~outside_board & ~head_bumps_body", "jnp.logical_and(jnp.logical_not(outside_board), jnp.logical_not(head_bumps_body))"))
+
+# ---------------------------------------------------------------- termination kinds, connectives, TSP horizon
+B("c09-maze-no-actions-negation", "C09", "C09.R7", (R + "maze/env.py", "Maze.step", "expr", "~jnp.any(action_mask)", "jnp.any(action_mask)"))
+B("c09-maze-done-and", "C09", "C09.R7", (R + "maze/env.py", "Maze.step", "expr", "no_actions_available | target_reached", "no_actions_available & target_reached"))
+B("c09-knapsack-no-items-negation", "C09", "C09.R7", (P + "knapsack/env.py", "Knapsack.step", "expr", "~jnp.any(observation.action_mask)", "jnp.any(observation.action_mask)"))
+B("c04-knapsack-mask-or", "C04", "C04.R3b", (P + "knapsack/env.py", "Knapsack._state_to_observation", "expr", "~state.packed_items & (state.weights <= state.remaining_budget)", "~state.packed_items | (state.weights <= state.remaining_budget)"))
+B("c11-tsp-counter-minus", "C11", "C11.R6", (R + "tsp/env.py", "TSP._update_state", "expr", "state.num_visited + 1", "state.num_visited + 2"))
+B("c11-tsp-done-ne", "C11", "C11.R6", (R + "tsp/env.py", "TSP.step", "expr", "next_state.num_visited == self.num_cities", "next_state.num_visited != self.num_cities"))
+T("c09-twin-maze-logical-not", "C09", (R + "maze/env.py", "Maze.step", "expr", "~jnp.any(action_mask)", "jnp.logical_not(action_mask.any())"))
+T("c11-twin-tsp-ge", "C11", (R + "tsp/env.py", "TSP.step", "expr", "next_state.num_visited == self.num_cities", "next_state.num_visited >= self.num_cities"))
